@@ -173,26 +173,9 @@ static inline void run_batch_reader(carquet_reader_t* r, const Table& t, const B
     auto advance_group = [&]() { while (g < t.rgs.size() && rowpos >= t.rgs[g].rows) { g++; rowpos = 0; std::fill(vpos.begin(), vpos.end(), 0); } };
     int64_t total = 0; for (auto& rg : t.rgs) total += rg.rows;
     int64_t delivered = 0;
-    for (int guard = 0; guard < 2000000; guard++) {
-        carquet_row_batch_t* b = nullptr;
-        carquet_status_t st = cq::batch_reader_next(br, &b);
-        if (statuses) statuses->push_back(st);
-        if (tr) tr->add((uint64_t)st);
-        if (st == CARQUET_ERROR_END_OF_DATA || (st == CARQUET_OK && !b)) { if (b) cq::row_batch_free(b); break; }
-        if (st != CARQUET_OK && error_seen) {
-            *error_seen = true; if (b) cq::row_batch_free(b);
-            // a caller may well call next() again after an error: whatever it answers, it must be safe
-            carquet_row_batch_t* again = nullptr; (void)cq::batch_reader_next(br, &again); if (again) cq::row_batch_free(again);
-            cq::batch_reader_free(br); return;
-        }
-        SIM_CHECK(st == CARQUET_OK, "batch.next_failed", "%s: batch_reader_next returned %d on a valid file after %lld rows", where, (int)st, (long long)delivered);
-        int64_t nrows = carquet_row_batch_num_rows(b);
-        if (tr) tr->add((uint64_t)nrows);
-        SIM_CHECK(carquet_row_batch_num_columns(b) == (int32_t)cfg.cols.size(), "batch.num_columns", "%s: batch has %d columns, projection has %zu", where, carquet_row_batch_num_columns(b), cfg.cols.size());
-        if (nrows == 0) { cq::row_batch_free(b); advance_group(); if (g >= t.rgs.size()) { /* trailing empty group */ } continue; }
-        advance_group();
-        SIM_CHECK(g < t.rgs.size(), "batch.too_many_rows", "%s: batch reader delivers rows beyond the end of the file", where);
-        SIM_CHECK(nrows >= 1 && nrows <= cfg.batch_size && nrows <= t.rgs[g].rows - rowpos, "batch.num_rows", "%s: batch of %lld rows (batch_size %d, %lld rows left in row group)", where, (long long)nrows, cfg.batch_size, (long long)(t.rgs[g].rows - rowpos));
+    int errors = 0; bool resync = false;
+    // checks one delivered batch against the rows [rp, rp+nrows) of row group g; vp = dense value positions of the projected columns at rp
+    auto verify = [&](carquet_row_batch_t* b, int64_t nrows, int64_t rp, std::vector<size_t>& vp, bool record) {
         for (size_t ci = 0; ci < cfg.cols.size(); ci++) {
             const Col& c = t.cols[(size_t)cfg.cols[ci]]; const Chunk& want = t.rgs[g].cols[(size_t)cfg.cols[ci]];
             const void* data = nullptr; const uint8_t* bitmap = nullptr; int64_t nv = -1;
@@ -201,31 +184,83 @@ static inline void run_batch_reader(carquet_reader_t* r, const Table& t, const B
             SIM_CHECK(nv == nrows, "batch.column_alignment", "%s: batch of %lld rows but projected column %zu (file column %d, %s%s) has %lld values", where, (long long)nrows, ci, cfg.cols[ci], type_name(c.type), c.max_def ? "?" : "", (long long)nv);
             size_t nn = 0;
             for (int64_t i = 0; i < nrows; i++) {
-                bool is_null = want.def[(size_t)(rowpos + i)] != c.max_def;
+                bool is_null = want.def[(size_t)(rp + i)] != c.max_def;
                 nn += !is_null;
                 if (!bitmap) { SIM_CHECK(!is_null, "batch.bitmap_missing", "%s: column %zu has nulls but no bitmap", where, ci); continue; }
                 int bit = (bitmap[i / 8] >> (i % 8)) & 1;
                 int& slot = is_null ? pol.bit_for_null : pol.bit_for_present;
                 if (slot < 0) slot = bit;
-                SIM_CHECK(slot == bit, "batch.bitmap", "%s: null bitmap of column %zu (%s%s) row %lld has bit %d for a %s row, elsewhere in this run bit %d marks %s rows", where, ci, type_name(c.type), c.max_def ? "?" : "", (long long)(rowpos + i), bit, is_null ? "null" : "present", slot, is_null ? "null" : "present");
+                SIM_CHECK(slot == bit, "batch.bitmap", "%s: null bitmap of column %zu (%s%s) row %lld has bit %d for a %s row, elsewhere in this run bit %d marks %s rows", where, ci, type_name(c.type), c.max_def ? "?" : "", (long long)(rp + i), bit, is_null ? "null" : "present", slot, is_null ? "null" : "present");
                 SIM_CHECK(pol.bit_for_null < 0 || pol.bit_for_present < 0 || pol.bit_for_null != pol.bit_for_present, "batch.bitmap", "%s: bitmap bit %d marks both null and present rows", where, bit);
             }
             std::vector<std::string> got;
             exec::unpack_values(c.type, c.tlen, (const uint8_t*)data, nn, got);
             for (size_t i = 0; i < nn; i++) {
-                SIM_CHECK(got[i] == want.vals[vpos[ci] + i], "batch.value", "%s: batch at row %lld of rg%zu, column %zu (%s d%d): non-null value #%zu is %s, file says %s", where, (long long)rowpos, g, ci, type_name(c.type), c.max_def, i,
-                          sim::hex(got[i].data(), got[i].size(), 20).c_str(), sim::hex(want.vals[vpos[ci] + i].data(), want.vals[vpos[ci] + i].size(), 20).c_str());
-                if (tr) tr->bytes(got[i].data(), got[i].size());
+                SIM_CHECK(got[i] == want.vals[vp[ci] + i], "batch.value", "%s: batch at row %lld of rg%zu, column %zu (%s d%d): non-null value #%zu is %s, file says %s", where, (long long)rp, g, ci, type_name(c.type), c.max_def, i,
+                          sim::hex(got[i].data(), got[i].size(), 20).c_str(), sim::hex(want.vals[vp[ci] + i].data(), want.vals[vp[ci] + i].size(), 20).c_str());
+                if (record && tr) tr->bytes(got[i].data(), got[i].size());
             }
-            if (views && data && nn && c.type != T_BA && !__sanitizer_get_ownership(data)) {
+            if (record && views && data && nn && c.type != T_BA && !__sanitizer_get_ownership(data)) {
                 ViewRec v; v.p = (const uint8_t*)data; v.n = nn * exec::slot_width(c.type, c.tlen); v.expect.assign((const char*)data, v.n); views->push_back(v);
                 SIM_COUNT("probe.zero_copy_view_handed_out");
             }
-            vpos[ci] += nn;
+            vp[ci] += nn;
         }
+    };
+    for (int guard = 0; guard < 2000000; guard++) {
+        carquet_row_batch_t* b = nullptr;
+        carquet_status_t st = cq::batch_reader_next(br, &b);
+        if (statuses) statuses->push_back(st);
+        if (tr) tr->add((uint64_t)st);
+        if (st == CARQUET_ERROR_END_OF_DATA || (st == CARQUET_OK && !b)) { if (b) cq::row_batch_free(b); break; }
+        if (st != CARQUET_OK && error_seen) {
+            // a caller may well call next() again after an error (the fault was transient): it may keep failing, or deliver batches whose
+            // columns all show the same rows - the rows that follow, or (if the failed batch is given up) rows a whole number of batches later
+            *error_seen = true; if (b) cq::row_batch_free(b);
+            if (++errors > 2) { cq::batch_reader_free(br); return; }
+            resync = true; SIM_COUNT("probe.batch_next_called_again_after_error");
+            continue;
+        }
+        SIM_CHECK(st == CARQUET_OK, "batch.next_failed", "%s: batch_reader_next returned %d on a valid file after %lld rows", where, (int)st, (long long)delivered);
+        int64_t nrows = carquet_row_batch_num_rows(b);
+        if (tr) tr->add((uint64_t)nrows);
+        SIM_CHECK(carquet_row_batch_num_columns(b) == (int32_t)cfg.cols.size(), "batch.num_columns", "%s: batch has %d columns, projection has %zu", where, carquet_row_batch_num_columns(b), cfg.cols.size());
+        if (nrows == 0) { cq::row_batch_free(b); advance_group(); if (g >= t.rgs.size()) { /* trailing empty group */ } continue; }
+        advance_group();
+        SIM_CHECK(g < t.rgs.size(), "batch.too_many_rows", "%s: batch reader delivers rows beyond the end of the file", where);
+        if (resync) {
+            // first batch after a failed call: it is either the plain continuation, or - if the reader gave the failed batch up - starts a whole
+            // number of batches later in this row group or at the start of a later row group; column 0 decides which, every column must then agree
+            resync = false;
+            auto col0_matches = [&](size_t gg, int64_t rp) -> bool {
+                if (gg >= t.rgs.size() || rp >= t.rgs[gg].rows || nrows > t.rgs[gg].rows - rp) return false;
+                const Col& c0 = t.cols[(size_t)cfg.cols[0]]; const Chunk& w0 = t.rgs[gg].cols[(size_t)cfg.cols[0]];
+                const void* data = nullptr; const uint8_t* bitmap = nullptr; int64_t nv = -1;
+                if (carquet_row_batch_column(b, 0, &data, &bitmap, &nv) != CARQUET_OK || nv != nrows) return false;
+                size_t v0 = 0; for (int64_t i = 0; i < rp; i++) v0 += w0.def[(size_t)i] == c0.max_def;
+                size_t nn = 0; for (int64_t i = 0; i < nrows; i++) nn += w0.def[(size_t)(rp + i)] == c0.max_def;
+                std::vector<std::string> got; exec::unpack_values(c0.type, c0.tlen, (const uint8_t*)data, nn, got);
+                for (size_t i = 0; i < nn; i++) if (got[i] != w0.vals[v0 + i]) return false;
+                return true;
+            };
+            if (!col0_matches(g, rowpos)) {
+                std::vector<std::pair<size_t, int64_t>> cand;
+                for (int k = 1; k <= 3; k++) cand.push_back({g, rowpos + (int64_t)k * cfg.batch_size});
+                for (size_t gg = g + 1; gg < t.rgs.size() && cand.size() < 6; gg++) if (t.rgs[gg].rows > 0) cand.push_back({gg, 0});
+                for (auto& cd : cand) if (col0_matches(cd.first, cd.second)) {
+                    g = cd.first; rowpos = cd.second;
+                    for (size_t ci = 0; ci < cfg.cols.size(); ci++) { const Col& c = t.cols[(size_t)cfg.cols[ci]]; const Chunk& want = t.rgs[g].cols[(size_t)cfg.cols[ci]]; vpos[ci] = 0; for (int64_t i = 0; i < rowpos; i++) vpos[ci] += want.def[(size_t)i] == c.max_def; }
+                    SIM_COUNT("probe.batch_reader_gave_up_failed_batch");
+                    break;
+                }
+            }
+        }
+        SIM_CHECK(nrows >= 1 && nrows <= cfg.batch_size && nrows <= t.rgs[g].rows - rowpos, "batch.num_rows", "%s: batch of %lld rows (batch_size %d, %lld rows left in row group)", where, (long long)nrows, cfg.batch_size, (long long)(t.rgs[g].rows - rowpos));
+        verify(b, nrows, rowpos, vpos, true);
         rowpos += nrows; delivered += nrows;
         cq::row_batch_free(b);
     }
+    if (errors) { cq::batch_reader_free(br); return; }
     SIM_CHECK(delivered == total, "batch.total_rows", "%s: batch reader delivered %lld rows, file has %lld", where, (long long)delivered, (long long)total);
     cq::batch_reader_free(br);
 }
